@@ -2248,6 +2248,33 @@ pub fn run(kv: &Args) {
         "pvp" => {
             pvp_games(&mut e, &mut rng, kv.num("count", 6) as usize, shard, shards);
         }
+        "play" => {
+            // the real human-vs-computer loop: the human types a stream of plausible and implausible lines
+            // (common opening moves in both notations, stale and mutated labels, junk); the engine answers
+            let games = kv.num("games", 4) as usize;
+            const POOL: [&str; 40] = [
+                "e4", "d4", "Nf3", "Nc3", "c4", "g3", "Bc4", "Bb5", "O-O", "d3", "e5", "d5", "Nf6", "Nc6", "c5", "g6", "Bc5", "Be7", "O-O-O", "d6",
+                "e2e4", "d2d4", "g1f3", "b1c3", "e7e5", "d7d5", "g8f6", "b8c6", "f1c4", "f8c5", "e1g1", "e8g8", "exd5", "exd4", "Nxe4", "Nxe5", "Qe2", "Qe7", "h3", "h6",
+            ];
+            for i in 0..games {
+                if i % shards != shard {
+                    continue;
+                }
+                let mut inputs: Vec<String> = vec![];
+                for _ in 0..(24 + rng.below(16)) {
+                    let base = POOL[rng.below(POOL.len())].to_string();
+                    inputs.push(match rng.below(6) {
+                        0 => mutate_label(&mut rng, &base),
+                        1 => ["zz", "-", "e9", "O-O-O-O", "a1a1"][rng.below(5)].to_string(),
+                        _ => base,
+                    });
+                }
+                let inputs: Vec<String> = inputs.into_iter().map(|x| { let y: String = x.chars().filter(|c| !c.is_whitespace() && *c != '|').collect(); if y.is_empty() { "-".to_string() } else { y } }).collect();
+                let color = if i % 2 == 0 { "w" } else { "b" };
+                e.exec(&format!("play 1 {} {}", color, inputs.join("|")));
+                e.tally("play-games");
+            }
+        }
         "apirepetition" => {
             if shard == 0 {
                 api_repetition(&mut e, &mut rng, kv.num("count", 3) as usize);
